@@ -189,25 +189,56 @@ def make_custom(rng, loader, tier, force=None):
                                     'prefix_pause': prefix_pause, 'block_pauses': block_pauses, 'jitter': jitter, 'false_starts': splits,
                                     'wait_delay': wait_delay, 'post_delay': post_delay}}
 
+def _tap_block(payload):
+    chk = 0
+    for x in payload:
+        chk ^= x
+    return bytes([(len(payload) + 1) & 0xFF, (len(payload) + 1) >> 8]) + bytes(payload) + bytes([chk])
+
+def _wrap_code_block(tap, extra, rng):
+    """Lengthen the last CODE block of a TAP file (header + data) by `extra` bytes."""
+    blocks = g.tap_blocks(tap)
+    hi = max(i for i, b in enumerate(blocks) if len(b) == 19 and b[0] == 0 and b[1] == 3)
+    hdr = bytearray(blocks[hi][:-1])
+    ln = hdr[12] + 256 * hdr[13] + extra
+    hdr[12], hdr[13] = ln & 0xFF, ln >> 8
+    body = bytearray(blocks[hi + 1][:-1]) + bytes(rng.randrange(256) for _ in range(extra))
+    out = b''
+    for i, b in enumerate(blocks):
+        if i == hi:
+            out += _tap_block(hdr)
+        elif i == hi + 1:
+            out += _tap_block(body)
+        else:
+            out += _tap_block(b[:-1])
+    return out
+
 def make_bin2tap(rng, tier, force=None):
     force = force or {}
     n = rng.choice((1, 2, 5, 40, 150, 300)) if tier == 'quick' else rng.choice((1, 2, 3, 40, 300, 1000, 2500))
-    org = rng.choice((0x8000, 0x6000, 0xC000, 65536 - n - 64, 30000))
+    org = rng.choice((0x8000, 0x6000, 0xC000, 65536 - n - 64, 30000, 65536 - n - 3, 65536 - n - 3))
     body = rand_bytes(rng, n)
     # the binary starts with DI; JR $ so that the machine is at rest once the program has been entered
     data = bytes((0xF3, 0x18, 0xFE)) + body
     harness.write_file('b.bin', data)
     opts = ['-o', str(org)]
     clear = None
-    if rng.random() < 0.3:
+    if rng.random() < 0.3 or (org + len(data) == 65536 and rng.random() < 0.7) or force.get('wrap'):
         clear = org - 1
         opts += ['-c', str(clear)]
-    elif rng.random() < 0.3:
+    elif rng.random() < 0.3 and org + len(data) + 40 < 65536:
         opts += ['-p', str(org + len(data) + 40)]
     r = harness.run_tool('bin2tap', opts + ['b.bin', 'b.tap'])
     if not r.ok:
         return {'error': 'bin2tap failed: ' + r.describe()}
     tap = harness.read_file('b.tap')
+    wrap_extra = 0
+    if force.get('wrap') or (clear is not None and org + len(data) == 65536 and rng.random() < 0.8):
+        # a CODE block that runs past 0xFFFF: the ROM loader's IX wraps to 0 and the rest of the block falls on ROM, where
+        # it is not stored. Made from a --clear tape (standard header + data block) by moving the block up against the top
+        # of memory and lengthening header and data block by a few bytes.
+        wrap_extra = rng.choice((1, 2, 57, 200))
+        tap = _wrap_code_block(tap, wrap_extra, rng)
     as_tzx = rng.random() < 0.5
     if as_tzx:
         nb = len(g.tap_blocks(tap))
@@ -224,7 +255,7 @@ def make_bin2tap(rng, tier, force=None):
             'polarity': polarity, 'first_edge': first_edge, 'start': org if use_start else None, 'regions': [(org, data)], 'extra': [],
             'timeout': ((g.tzx_duration(tape) if as_tzx else g.tap_duration(tape)) + abs(first_edge)) // 3500000 + 5,
             'desc': {'loader': 'bin2tap', 'length': len(data), 'org': org, 'clear': clear, 'container': 'tzx' if as_tzx else 'tap', 'polarity': polarity,
-                     'first_edge': first_edge, 'start': use_start, 'opts': opts}}
+                     'first_edge': first_edge, 'start': use_start, 'opts': opts, 'bytes_beyond_ffff': wrap_extra}}
 
 # ------------------------------------------------------------------ running one configuration
 
